@@ -63,6 +63,21 @@ def _wrap_linalg() -> None:
         setattr(torch.linalg, n, mk(real))
 
 
+def _shifted(name: str, v: Any, how: str) -> Any:
+    """A different, legal constant for constructor argument `name`."""
+    if name == 'kl_clip':
+        if v is None:
+            return 0.001
+        return None if how == 'none' else v * 4
+    if name in hpmod.INT_HPS:
+        return v + 1
+    if name == 'factor_decay':
+        return 0.5 if v != 0.5 else 0.9
+    if name == 'damping':
+        return v * 3 + 0.01
+    return v * 0.5
+
+
 def _decomp(rank: int) -> int:
     return _DECOMP_COUNTS.get(rank, 0)
 
@@ -76,6 +91,9 @@ class Store:
     def __init__(self) -> None:
         self.ckpt: dict[str, Any] | None = None
         self.n_saves = 0
+        # deserialised checkpoint objects kept in memory across a rollback
+        # (fault F13): (rank, incarnation, op index of the save) -> object
+        self.mem: dict[tuple[int, int, int], Any] = {}
 
 
 def _ser(obj: Any) -> bytes:
@@ -252,8 +270,17 @@ class RankEnv:
     def _kfac_kwargs(self) -> dict[str, Any]:
         p = self.plan
         kw: dict[str, Any] = {}
+        rop = p.get('_restart_op') or {}
+        shift = (rop.get('hp_shift') if self.inc > 0
+                 and p.get('_boot_ckpt') is not None else None)
         for name in hpmod.HP_NAMES:
             spec = p['hps'][name]
+            if shift and 'c' in spec:
+                # the resumed job constructs K-FAC with other constants (a
+                # script's defaults) and relies on load_state_dict to
+                # restore the saved ones
+                spec = {'c': _shifted(name, spec['c'], shift)}
+                self.sim.probe('restart_ctor_constants_differ')
             if spec.get('c', 0) is None and 'c' in spec:
                 kw[name] = None
                 continue
@@ -326,6 +353,15 @@ class RankEnv:
             self.twin.load_state_dict(_de(ck['model']))
         self.opt.load_state_dict(_de(ck['opt']))
         sd = _de(ck['kfac'])
+        if self.plan['sim'].get('mem_ckpt'):
+            # F13: a job that rolls back twice to the same checkpoint hands
+            # load_state_dict the SAME deserialised object both times
+            key = (self.rank, ck['inc'], ck['op_index'])
+            if key in self.store.mem:
+                sd = self.store.mem[key]
+                self.sim.fault('checkpoint_object_reused')
+            else:
+                self.store.mem[key] = sd
         saved = _de(ck['kfac'])
         nlay = len(self.reg)
         if rop.get('try_bad') and 'layers' in sd and nlay >= 1:
